@@ -4,6 +4,7 @@ From Coq Require Import QArith.
 From Verif Require Import Base.Prelude Base.Decimal Base.Utf8 Base.JsonSpec Enc.JsonEnc Misc.Level
      Proofs.DecimalP Proofs.JsonEncP Api.Exec Api.Spec Proofs.ExecP
      Misc.GenTypes Gen.EventMethods Gen.ContextMethods Gen.ArrayMethods Gen.FieldsCases Proofs.GenTablesP.
+From Verif Require Base.GoSem Gen.FieldSrc Gen.ArraySrc Gen.ContextSrc Proofs.SrcFieldP.
 Open Scope N_scope.
 
 (* Parsing an emitted event yields exactly the members the declarative
@@ -138,6 +139,84 @@ Proof. exact (conj event_regular_complete (conj context_regular_complete (conj a
 Example C02_ex : forall st, prim_jv st (PInts [-9223372036854775808; 255]%Z) = JArr [JNum [45;57;50;50;51;51;55;50;48;51;54;56;53;52;55;55;53;56;48;56]; JNum [50;53;53]].
 Proof. intros. vm_compute. reflexivity. Qed.
 
+(* ... and the field methods THEMSELVES, not only their call tables: the machine translation of
+   event.go's Str, Strs, Bytes, Hex, RawJSON, Bool(s), Int..(s), Uint..(s), Float32/64, Floats32/64,
+   Time(s), Dur(s) (Gen/FieldSrc.v, regenerated by harness/cmd/srcgen on every run) returns, within
+   the guards of the encoder refinement (Proofs/SrcJsonP.v) collected in [fcall_ok], the receiver
+   whose buffer is the model's [append_prim] after [AppendKey] - what [exec st (OKey key p)] does -
+   every other field of the event unchanged.  Durs: integer mode only (DurationFieldInteger). *)
+Theorem C02_source_event_fields : forall fo fq prec tf du di st e key c,
+  SrcFieldP.settings_agree st prec tf du di -> SrcFieldP.key_pre e key ->
+  SrcFieldP.fcall_ok fo fq prec du di (AppendKey (FieldSrc.Event_buf e) key) c ->
+  SrcFieldP.run_fcall fo fq prec tf du di e key c =
+  GoSem.Ok (let b := append_prim st (AppendKey (FieldSrc.Event_buf e) key) (SrcFieldP.prim_of c) in
+      (FieldSrc.set_Event_buf e b, FieldSrc.set_Event_buf e b)).
+Proof. exact SrcFieldP.event_fields_refine_model. Qed.
+Theorem C02_source_event_fields_exec : forall fo fq prec tf du di st e key c ev0,
+  SrcFieldP.settings_agree st prec tf du di -> SrcFieldP.key_pre e key ->
+  SrcFieldP.fcall_ok fo fq prec du di (AppendKey (FieldSrc.Event_buf e) key) c ->
+  e_buf ev0 = FieldSrc.Event_buf e ->
+  SrcFieldP.run_fcall fo fq prec tf du di e key c =
+  GoSem.Ok (FieldSrc.set_Event_buf e (e_buf (exec st (OKey key (SrcFieldP.prim_of c)) ev0)),
+      FieldSrc.set_Event_buf e (e_buf (exec st (OKey key (SrcFieldP.prim_of c)) ev0))) /\
+  exec st (OKey key (SrcFieldP.prim_of c)) ev0 = key_prim st ev0 key (SrcFieldP.prim_of c).
+Proof. exact SrcFieldP.event_fields_refine_exec. Qed.
+(* array.go's element methods (Gen/ArraySrc.v) against the model's [AElem]: same buffer, the marks
+   and the array's recorded calls untouched *)
+Theorem C02_source_array_elems : forall fo fq prec tf du di st ex marks a c,
+  SrcFieldP.settings_agree st prec tf du di ->
+  SrcFieldP.acall_ok fo fq prec du di (AppendArrayDelim (ArraySrc.Array_buf a)) c ->
+  SrcFieldP.run_acall fo fq prec tf du di a c =
+  GoSem.Ok (let b := fst (arr_op st ex (AElem (SrcFieldP.aprim_of c)) (ArraySrc.Array_buf a, marks)) in
+      (ArraySrc.set_Array_buf a b, ArraySrc.set_Array_buf a b)) /\
+  snd (arr_op st ex (AElem (SrcFieldP.aprim_of c)) (ArraySrc.Array_buf a, marks)) = marks /\
+  (forall b, ArraySrc.Array_calls (ArraySrc.set_Array_buf a b) = ArraySrc.Array_calls a).
+Proof. exact SrcFieldP.array_elems_refine_model. Qed.
+(* Array.write: "[" buf "]" after dst, then the array goes back to its pool; with the buffer the
+   model's element ops built, the bytes written are the model's [array_bytes] *)
+Theorem C02_source_array_write : forall st ex es marks a dst,
+  ArraySrc.write a dst =
+    GoSem.Ok (dst ++ [91] ++ ArraySrc.Array_buf a ++ [93],
+        ArraySrc.set_Array_calls a (ArraySrc.Array_calls a ++ [SrcFieldP.putArray_call])) /\
+  (ArraySrc.Array_buf a = fst (arr_list st ex es ([], marks)) ->
+   ArraySrc.write a dst =
+     GoSem.Ok (dst ++ fst (array_bytes st ex es marks),
+         ArraySrc.set_Array_calls a (ArraySrc.Array_calls a ++ [SrcFieldP.putArray_call]))).
+Proof. exact SrcFieldP.array_write_refines_model. Qed.
+(* context.go's field methods (Gen/ContextSrc.v; value receiver: the returned Context carries the new
+   l.context, the caller's Context is unchanged) against the model: the same calls, the same guards *)
+Theorem C02_source_context_fields : forall fo fq prec tf du di st cx key c,
+  SrcFieldP.settings_agree st prec tf du di -> SrcFieldP.ckey_pre cx key ->
+  SrcFieldP.fcall_ok fo fq prec du di (AppendKey (ContextSrc.Context_l_context cx) key) c ->
+  SrcFieldP.run_ccall fo fq prec tf du di cx key c =
+  GoSem.Ok (let b := append_prim st (AppendKey (ContextSrc.Context_l_context cx) key) (SrcFieldP.prim_of c) in
+      (ContextSrc.set_Context_l_context cx b, cx)).
+Proof. exact SrcFieldP.context_fields_refine_model. Qed.
+Theorem C02_source_context_fields_exec : forall fo fq prec tf du di st cx key c lg,
+  SrcFieldP.settings_agree st prec tf du di -> SrcFieldP.ckey_pre cx key ->
+  SrcFieldP.fcall_ok fo fq prec du di (AppendKey (ContextSrc.Context_l_context cx) key) c ->
+  l_context lg = ContextSrc.Context_l_context cx ->
+  SrcFieldP.run_ccall fo fq prec tf du di cx key c =
+  GoSem.Ok (ContextSrc.set_Context_l_context cx (l_context (ctx_exec st (COp (OKey key (SrcFieldP.prim_of c))) lg)), cx).
+Proof. exact SrcFieldP.context_fields_refine_ctx_exec. Qed.
+(* the two entry points in the source: from the same starting bytes the Event method and the
+   Context method of the same call append the same bytes *)
+Theorem C02_source_entry_points_agree : forall fo fq prec tf du di st e cx key c,
+  SrcFieldP.settings_agree st prec tf du di -> SrcFieldP.key_pre e key ->
+  SrcFieldP.fcall_ok fo fq prec du di (AppendKey (FieldSrc.Event_buf e) key) c ->
+  FieldSrc.Event_buf e = ContextSrc.Context_l_context cx ->
+  exists b,
+    SrcFieldP.run_fcall fo fq prec tf du di e key c = GoSem.Ok (FieldSrc.set_Event_buf e b, FieldSrc.set_Event_buf e b) /\
+    SrcFieldP.run_ccall fo fq prec tf du di cx key c = GoSem.Ok (ContextSrc.set_Context_l_context cx b, cx) /\
+    b = append_prim st (AppendKey (FieldSrc.Event_buf e) key) (SrcFieldP.prim_of c).
+Proof. exact SrcFieldP.event_context_fields_agree. Qed.
+(* every function of the three translation units was translated, none skipped *)
+Theorem C02_source_fields_translated_set :
+  length FieldSrc.translated_functions = 38%nat /\ length FieldSrc.skipped_functions = 0%nat /\
+  length ArraySrc.translated_functions = 21%nat /\ length ArraySrc.skipped_functions = 0%nat /\
+  length ContextSrc.translated_functions = 36%nat /\ length ContextSrc.skipped_functions = 0%nat.
+Proof. exact SrcFieldP.field_counts. Qed.
+
 Print Assumptions C02_roundtrip.
 Print Assumptions C02_parser_agrees.
 Print Assumptions C02_text_value.
@@ -161,3 +240,11 @@ Print Assumptions C02_context_table_canonical.
 Print Assumptions C02_array_table_canonical.
 Print Assumptions C02_fields_cases_canonical.
 Print Assumptions C02_tables_complete.
+Print Assumptions C02_source_event_fields.
+Print Assumptions C02_source_event_fields_exec.
+Print Assumptions C02_source_array_elems.
+Print Assumptions C02_source_array_write.
+Print Assumptions C02_source_context_fields.
+Print Assumptions C02_source_context_fields_exec.
+Print Assumptions C02_source_entry_points_agree.
+Print Assumptions C02_source_fields_translated_set.
